@@ -19,6 +19,12 @@ FLAVOURS = {
     'needle': "an unusual input or option combination that ordinary use and the existing tests never touch (an edge "
               "value, a rarely combined pair of options, an unusual but documented input form)",
     'twosite': "two cooperating edits at different sites that each look harmless (and are harmless) alone",
+ 'sharing': "one author-created object (a subgrader, comparer, sampling set, credit schedule, function or "
+               "configuration dictionary) used in two or more places, or two objects of one class alive at once with "
+               "different options - the change must be invisible while every object is built, used and dropped alone",
+    'form': "a documented but rarely used way of writing the same thing (dictionary vs keyword configuration, tuple vs "
+            "list, string vs dictionary answers, nested structures, inferred vs configured answers, option aliases, "
+            "numpy values where Python numbers are usual)",
     'refactor': "a plausible refactoring / optimisation / tidy-up whose behaviour differs from the original only in a "
                 "corner that needs a specific configuration and input to be seen",
 }
